@@ -18,7 +18,10 @@ import time
 
 VERIF = os.path.dirname(os.path.dirname(os.path.abspath(__file__)))   # /verif, or a snapshot of it (vp run)
 REPO = os.environ.get("VERIF_REPO", "/repo")
-BUILD = os.path.join(VERIF, "build")
+# build output: one directory per tree under check, so that a check of a private copy (seeded change, sweep) can run
+# at the same time as a check of /repo without replacing its harness binary
+BUILD = os.path.join(VERIF, "build") if REPO == "/repo" else \
+    os.path.join(VERIF, "build", "alt-" + hashlib.md5(REPO.encode()).hexdigest()[:10])
 LEAN = os.path.join(VERIF, "lean")
 HARNESS_BIN = os.path.join(BUILD, "verifharness")
 DRIVER_BIN = os.path.join(LEAN, ".lake", "build", "bin", "nsdriver")
